@@ -125,7 +125,8 @@ class PathExpr:
         if kind == "arg":
             ty = re.sub(r"'[a-z_]+ ?", "", b.local_ty(l))
             same = [i for i in range(1, b.argc + 1) if re.sub(r"'[a-z_]+ ?", "", b.local_ty(i)) == ty]
-            return ("arg", ty, same.index(l))
+            # a small Copy value handed over by reference or by value is the same argument
+            return ("arg", re.sub(r"^&(?!mut )", "", ty), same.index(l))
         here = (bb, idx)
         if kind == "call":
             t = payload
